@@ -191,10 +191,15 @@ def c_decl(d):
     if k == "DType": return "DType %s %s" % (q(d[1]), c_params(d[2]))
     if k == "DAlias": return "DAlias %s %s" % (q(d[1]), c_ty(d[2]))
     raise ValueError(d)
-def c_module(m):
-    return "{| m_path := %s; m_imports := [%s]; m_decls := [%s] |}" % (
-        q(m["path"]), "; ".join("(%s, %s)" % (q(a), q(p)) for a, p, _ in m["imports"]),
-        ";\n   ".join(c_decl(d) for d in m["decls"]))
+def c_module(m, shared=None):
+    """shared = (coq name, n): the first n declarations are the Coq definition `name` (shared helper declarations)."""
+    decls = m["decls"]
+    pre = ""
+    if shared is not None:
+        pre = shared[0] + " ++ "; decls = decls[shared[1]:]
+    return "{| m_path := %s; m_imports := [%s]; m_decls := %s[%s] |}" % (
+        q(m["path"]), "; ".join("(%s, %s)" % (q(a), q(p)) for a, p, _ in m["imports"]), pre,
+        ";\n   ".join(c_decl(d) for d in decls))
 
 # ------------------------------------------------------------------ library modules (both cases of every symbol kind)
 PT = ("TName", "Point")
@@ -207,6 +212,10 @@ def lib_module(path):
         ("DVar", "Gpub", I32, lit(3)), ("DVar", "gpriv", I32, lit(4)),
         ("DConst", "Kpub", I32, lit(1)), ("DConst", "kpriv", I32, lit(2)),
         ("DFn", "Fpub", [], I32, ret(lit(1))), ("DFn", "fpriv", [], I32, ret(lit(2))),
+        # boundary initials of IsCapitalized: 'A', 'Z' exported; 'a', 'z', '_' private
+        ("DFn", "Afn", [], I32, ret(lit(1))), ("DFn", "Zfn", [], I32, ret(lit(1))),
+        ("DFn", "afn", [], I32, ret(lit(2))), ("DFn", "zfn", [], I32, ret(lit(2))), ("DFn", "_ufn", [], I32, ret(lit(2))),
+        ("DVar", "Zvar", I32, lit(3)), ("DVar", "zvar", I32, lit(4)), ("DVar", "Avar", I32, lit(3)), ("DVar", "avar", I32, lit(4)),
         ("DFn", "Mk", [], PT, mk),
         # receiver-internal accesses of the private field: read, closure, write, compound, ++
         ("DMethod", "p", PT, "GetY", [], I32, ret(sel(var("p"), "y"))),
@@ -322,7 +331,9 @@ def make_cases(run, tier):
         cases.append(c)
     # ---- module symbols: fn / const / var  x private/exported  x value contexts
     def sym_access(alias, kind, priv):
-        n = {"fn": ("fpriv", "Fpub"), "const": ("kpriv", "Kpub"), "var": ("gpriv", "Gpub")}[kind][0 if priv else 1]
+        names = {"fn": (["fpriv", "afn", "zfn", "_ufn"], ["Fpub", "Afn", "Zfn"]), "const": (["kpriv"], ["Kpub"]),
+                 "var": (["gpriv", "zvar", "avar"], ["Gpub", "Zvar", "Avar"])}[kind][0 if priv else 1]
+        n = rng.choice(names)
         a = qual(alias, n)
         return (call(a) if kind == "fn" else a), n
     reps = 1 if tier == "quick" else 4
@@ -486,7 +497,10 @@ def main(run):
         "methods are outside the rule implemented by the compiler: a lowercase method is callable from another module (open finding F-C12-PRIVATE-METHOD; the property text names functions, constants, variables, types and fields)",
         "acceptance is decided by the type-check pipeline (`ferret -t` semantics, in-process through compiler.Compile with SkipCodegen)",
     ]
+    import time
+    T = {}; t0 = time.time()
     ok = run.proof("Props/C12.v")
+    T["proof_s"] = round(time.time() - t0, 1); t0 = time.time()
     cases = make_cases(run, run.tier)
     reqs = []
     for i, c in enumerate(cases):
@@ -494,7 +508,9 @@ def main(run):
         c.mods = build_project(c)
         c.entry, c.files = write_project(c.mods, work.sub("p%d" % i))
         reqs.append(dict(id=i, file=c.entry, mode="t"))
+    T["generate_s"] = round(time.time() - t0, 1); t0 = time.time()
     res = common.batch_compile(reqs)
+    T["compile_s"] = round(time.time() - t0, 1); t0 = time.time()
     # cross-check the in-process driver against the real CLI on a seeded sample
     sample = run.rng.sample(cases, min(16, len(cases)))
     def cli(c):
@@ -503,6 +519,7 @@ def main(run):
         if (rc == 0) != bool(res[c.id]["ok"]):
             raise RuntimeError("batch hook and CLI disagree on case %d (%s): cli rc=%d batch ok=%s\n%s" % (c.id, c.what, rc, res[c.id]["ok"], (so + se)[-800:]))
     run.extra["cli_crosschecked"] = len(sample)
+    T["cli_s"] = round(time.time() - t0, 1); t0 = time.time()
 
     # ---- spec-side oracle + bookkeeping
     lines = []
@@ -543,27 +560,31 @@ def main(run):
                     ["not exported %s" % (x,) for x in c.ne] + ["private %s" % x for x in c.pf] + c.other[:2])), replay)
     # ---- correspondence with the model (vm_compute)
     bad_total = []
-    SH = 400
-    for s0 in range(0, len(cases), SH):
+    SH = 220
+    def eval_shard(s0):
         shard = cases[s0:s0 + SH]
         v = ["From Coq Require Import List String ZArith.", "From FV Require Import Models.Vis.", "Import ListNotations.",
              "Open Scope string_scope.",
              "Definition lib_direct : module := %s." % c_module(lib_module("proj/lib")),
              "Definition lib_alias : module := %s." % c_module(lib_module("proj/utils/lib")),
+             "Definition helpers_d : list decl := [%s]." % ";\n   ".join(c_decl(d) for d in helpers()),
              "Definition cases : list case := ["]
         items = []
         for c in shard:
-            mods = ["lib_alias" if c.shape == "alias" else "lib_direct"] + [c_module(m) for m in c.mods[1:]]
+            mods = ["lib_alias" if c.shape == "alias" else "lib_direct"] + [c_module(c.mods[1], ("helpers_d", len(helpers())))] + [c_module(m) for m in c.mods[2:]]
             items.append("  ((%d)%%Z, [%s], %s, %s)" % (c.id, ";\n    ".join(mods), common.coq_bool(c.ok), c_obs(c.ne, c.pf)))
         v.append(";\n".join(items)); v.append("].")
         v.append("Eval vm_compute in (bad_ids cases).")
         okc, out = common.coq_eval("C12_%d_%d" % (run.seed, s0), "\n".join(v) + "\n")
-        ids = common.parse_bad_ids(out) if okc else None
+        return (common.parse_bad_ids(out) if okc else None), out
+    for ids, out in common.pmap(eval_shard, list(range(0, len(cases), SH)), workers=4):
         if ids is None:
             run.violation("correspondence:eval", "model evaluation failed: " + out[-600:], {"log": out[-3000:]}, no_input=True)
             break
         bad_total += ids
     run.extra["model_disagreements"] = len(bad_total)
+    T["model_eval_s"] = round(time.time() - t0, 1)
+    run.extra["timing"] = T
     byid = {c.id: c for c in cases}
     for i in bad_total[:20]:
         c = byid[i]
